@@ -76,6 +76,14 @@ class Record:
         self.fields = dict(fields)
 
 
+class TupleRec(Record):
+    """a NamedTuple value: attribute access like a Record, comparison lexicographic over `order` (the field order of the class)"""
+
+    def __init__(self, fields, order):
+        Record.__init__(self, fields)
+        self.order = tuple(order)
+
+
 class Lookup:
     """result of dict.get(k): the index of the stored key, or ABSENT"""
 
@@ -667,6 +675,22 @@ class PyExec:
                 # an int is never equal to a string key
                 r = z3.BoolVal(False) if b.kind == 'ref' else z3.Select(b.arr, as_int(a)) != SymDict.ABSENT
             return z3.Not(r) if isinstance(op, ast.NotIn) else r
+        if isinstance(a, TupleRec) and isinstance(b, TupleRec) and a.order == b.order:
+            xs = [a.fields[k] for k in a.order]
+            ys = [b.fields[k] for k in b.order]
+            eqs = [as_bool(self._cmp(ast.Eq(), x, y)) for x, y in zip(xs, ys)]
+            if isinstance(op, (ast.Eq, ast.NotEq)):
+                r = z3.And(eqs)
+                return z3.Not(r) if isinstance(op, ast.NotEq) else r
+            lt = z3.BoolVal(False)
+            for k in range(len(xs) - 1, -1, -1):            # lexicographic <
+                lt = z3.Or(as_bool(self._cmp(ast.Lt(), xs[k], ys[k])), z3.And(eqs[k], lt))
+            alleq = z3.And(eqs)
+            return {ast.Lt: lt, ast.LtE: z3.Or(lt, alleq), ast.Gt: z3.Not(z3.Or(lt, alleq)), ast.GtE: z3.Not(lt)}[type(op)]
+        if isinstance(a, str) and len(a) == 1 and z3.is_expr(b):
+            a = ord(a)            # a one-character string against a symbolic character (code point)
+        if isinstance(b, str) and len(b) == 1 and z3.is_expr(a):
+            b = ord(b)
         if isinstance(a, tuple) and isinstance(b, tuple) and isinstance(op, (ast.Eq, ast.NotEq)):
             cs = [self._cmp(ast.Eq(), x, y) for x, y in zip(a, b)]
             r = all(cs) if all(isinstance(c, bool) for c in cs) else z3.And([as_bool(c) for c in cs])
